@@ -13,6 +13,10 @@ import (
 )
 
 type c02Case struct {
+	// a second line typed ahead: "text RET text2 RET" arrives in one write while the first call
+	// is waiting; what follows the first RET belongs to the next call
+	Text2 string `json:"text2,omitempty"`
+	Ahead bool   `json:"ahead,omitempty"`
 	shellCfg
 	Text     string `json:"text"`
 	Delivery string `json:"delivery"` // whole | rune | byte | random
@@ -73,6 +77,14 @@ func c02Gen(r *rand.Rand, tier string, idx int) any {
 		c.Inputrc = "set convert-meta off\nset input-meta on\nset output-meta on\n"
 	}
 	c.Inputrc += "set autopairs off\n"
+	if len(c.Text) < 300 && r.Intn(8) == 0 {
+		c.Ahead = true
+		cls := []string{"ascii"}
+		if !asciiOnly {
+			cls = []string{pick(r, runeClassNames), "ascii"}
+		}
+		c.Text2 = genText(r, cls, r.Intn(30))
+	}
 	c.Delivery = pick(r, []string{"whole", "rune", "byte", "random"})
 	if len(c.Text) > 250 && c.Delivery != "whole" {
 		c.Delivery = "random"
@@ -228,6 +240,10 @@ func c02Run(env *fw.Env, raw json.RawMessage) fw.Outcome {
 	var o fw.Out
 	s := sess.New(env.T, env.Scratch, c.cfg())
 	defer s.Close()
+	if c.Ahead {
+		c02TypeAhead(env, &c, s, &o)
+		return o.O
+	}
 	plan := steps(chunk(c.Text, c.Delivery, c.Cuts)...)
 	res := s.Call(plan, retExit)
 	o.O.Events = 1
@@ -260,12 +276,37 @@ func c02Run(env *fw.Env, raw json.RawMessage) fw.Outcome {
 	return o.O
 }
 
+// c02TypeAhead: two lines in one write. The first call must return the first line, the next
+// call on the same Shell the second one, without anything else being typed.
+func c02TypeAhead(env *fw.Env, c *c02Case, s *sess.Session, o *fw.Out) {
+	ctx := fmt.Sprintf("mode=%s meta=%q two lines in one write: %s RET %s RET", c.Mode, c.Meta, q(clampStr(c.Text, 60)), q(clampStr(c.Text2, 60)))
+	res1 := s.Call(steps(c.Text+"\r"+c.Text2+"\r"), retExit)
+	o.O.Events = 2
+	o.Cover("type-ahead-across-accept|" + c.Mode + "|" + c.Meta)
+	if !stdFailures(o, res1, ctx+" (first call)") {
+		return
+	}
+	if !res1.Returned || res1.Err != "" || res1.Line != c.Text {
+		o.Viol("type-ahead|first-line-wrong|"+c.Mode, ctx+fmt.Sprintf(": the first call returned (%s, %q)", q(clampStr(res1.Line, 80)), res1.Err))
+		return
+	}
+	// nothing is typed for the second call before its line is complete: the exit key is only
+	// delivered if the library comes to read the terminal, i.e. if it lost the type-ahead
+	res2 := s.Call(nil, retExit)
+	if !stdFailures(o, res2, ctx+" (second call)") {
+		return
+	}
+	if !res2.Returned || res2.Err != "" || res2.Line != c.Text2 {
+		o.Viol("type-ahead|second-line-"+diffClass(c.Text2, res2.Line)+"|"+c.Mode, ctx+fmt.Sprintf(": the second call returned (%s, %q)", q(clampStr(res2.Line, 80)), res2.Err))
+	}
+}
+
 func init() {
 	fw.Register(&fw.Prop{
 		ID:        "C02",
 		Level:     "exploration",
 		NeedsTerm: true,
-		Rule: "strings of 0-40 (some 200-800) printable runes over {ASCII, Latin-1, BMP letters, CJK/Hangul wide, combining marks, astral} x {emacs, vi-insert}; ASCII-only strings under all 8 convert-meta/input-meta/output-meta settings, non-ASCII under convert-meta off/input-meta on/output-meta on; delivered whole, per rune, per byte (mid-UTF-8 cuts) or at random cuts; oracle = identity with the returned line. " +
+		Rule: "strings of 0-40 (some 200-800) printable runes over {ASCII, Latin-1, BMP letters, CJK/Hangul wide, combining marks, astral} x {emacs, vi-insert}; ASCII-only strings under all 8 convert-meta/input-meta/output-meta settings, non-ASCII under convert-meta off/input-meta on/output-meta on; delivered whole, per rune, per byte (mid-UTF-8 cuts) at random cuts, or as one write of 1-3 KiB; one case in eight types two lines in one write (text RET text2 RET) while the first call waits: the first call must return the first line and the next call on the same Shell the second one with nothing else typed; oracle = identity with the returned line. " +
 			"distinct non-trivial = distinct (rune-class set, mode, meta setting, delivery, length decile) tuples",
 		Assumptions: []string{"autopairs off (pair insertion is a documented edit)", "accepted with RET"},
 		N: func(tier string) int {
